@@ -121,6 +121,19 @@ pub fn draw(r: &mut Rng, profile: Profile, enabled: &[String]) -> (E1Config, Kno
         node_ids = (0..n).map(|p| id_string(r, len, p)).collect();
     }
     let id_cost = |s: &String| s.len() + 2 + 8 + addr_bytes + 24;
+    // keep the property's assumption true: own digest + a writer's node op + one key-value fit
+    {
+        let digest: usize = 2 + node_ids.iter().map(id_cost).sum::<usize>();
+        let node_op = writers.iter().map(|p| node_ids[*p].len() + 2 + 8 + addr_bytes + 17).max().unwrap_or(0);
+        let need = node_op + 64 + 100;
+        let have = 65_503usize.saturating_sub(digest);
+        if need > have {
+            let deficit = need - have;
+            let longest = (0..n).max_by_key(|p| node_ids[*p].len()).unwrap();
+            let new_len = node_ids[longest].len().saturating_sub(deficit).max(2);
+            node_ids[longest].truncate(new_len);
+        }
+    }
     let max_members_extra = max_restarts as usize * node_ids.iter().map(id_cost).max().unwrap_or(0);
     let max_digest = 2 + node_ids.iter().map(id_cost).sum::<usize>() + max_members_extra;
     assert!(max_digest <= 65_403, "generator bug: digest bound {max_digest}");
